@@ -211,11 +211,15 @@ def class_literals(ctx, rel, cls):
     return out
 
 
-def kitty_unit(method, mode):
-    @unit(("C01", "C03"), f"kitty:KittyImage._render_image[{method},{mode}]")
+def kitty_unit(method, mode, override=None):
+    """override: the per-call `method` argument as the caller spelled it (any letter case is accepted by the argument check); the
+    image's own effective method is then the OTHER one, so that the override is what decides"""
+    tag = f"{method},{mode}" + (f",override={override}" if override else "")
+
+    @unit(("C01", "C03", "C20"), f"kitty:KittyImage._render_image[{tag}]")
     def u(ctx, method=method, mode=mode):
-        eng = ctx.engine(f"C01/kitty._render_image[{method},{mode}]", "C01")
-        eng.default_replay = {"C01": "C01.render", "C03": "C03.render", "C11": "C11.fds"}
+        eng = ctx.engine(f"C01/kitty._render_image[{tag}]", "C01")
+        eng.default_replay = {"C01": "C01.render", "C03": "C03.render", "C11": "C11.fds", "C20": "C20.method_override"}
         st = State()
         ns = ctx.ns("term_image.image.kitty")
         cs = ctx.ns("term_image._ctlseqs")
@@ -237,7 +241,8 @@ def kitty_unit(method, mode):
             return z3.And(a["line_w"] == W, a["written"] == W, a["skipped"] == 0, z3.Not(a["irregular"]), to_z3(a["erased_to"]) <= W)
         st.ghost["vt"] = vt_new(r0, z3.IntVal(0), B0, TW, TH, line_pred=line_pred)
         st.ghost.update(tx_count=z3.IntVal(0), raw_covered=z3.IntVal(0))
-        self_ = st.new("KittyImage", {"_render_method": method})
+        effective = method if override is None else {"lines": "whole", "whole": "lines"}[method]
+        self_ = st.new("KittyImage", {"_render_method": effective})
         eng.attrs[("KittyImage", "rendered_size")] = lambda e, s, v: [((rw, rh), s)]
         # contracts of the size helpers (units of C04 / below): pixel size of the render, minimal size for WHOLE
         eng.methods[("KittyImage", "_get_render_size")] = lambda e, s, recv, a, k: [((rw * cw, rh * ch), s)]
@@ -247,6 +252,7 @@ def kitty_unit(method, mode):
         def get_render_data(e, s, recv, a, k):
             e.oblige("C03:pixel-data-requested-at-the-transmitted-resolution", s, Eq(k.get("size"), (width, height)), prop="C03", kind="pre")
             s = e.fork(s)
+            s.ghost["size_req"] = k.get("size")
             im = s.new("PIL.Image", {"mode": mode, "size": k.get("size")})
             return [((im, None, None), s)]
         eng.methods[("KittyImage", "_get_render_data")] = get_render_data
@@ -390,7 +396,7 @@ def kitty_unit(method, mode):
             # loops of the function in source order: 1 = first `for chunk`, 2 = `for _ in range(r_height - 1)`, 3 = inner `for chunk`
             eng.invariants = {2: LoopSpec(inv, havoc)}
         blend, mix = z3.Bools("blend mix")
-        st.env.update(self=self_, img=img0, alpha=Opaque("alpha"), frame=z3.Bool("frame"), method=None, z_index=zidx, mix=mix, compress=level, blend=blend)
+        st.env.update(self=self_, img=img0, alpha=Opaque("alpha"), frame=z3.Bool("frame"), method=override, z_index=zidx, mix=mix, compress=level, blend=blend)
         outs = run_function(eng, ctx.fn(KITTY, "KittyImage._render_image"), st)
         for kind, val, s in outs:
             if kind != "return":
@@ -415,6 +421,8 @@ def kitty_unit(method, mode):
                               z3.BoolVal(g["parser"] == "ground")), kind="post")
             eng.oblige("C03:one-transmission-per-line(LINES)/one-for-the-image(WHOLE),all-raw-bytes-sent", s2,
                        And(s2.ghost["tx_count"] == (rh if method == "lines" else 1), s2.ghost["raw_covered"] == RAWLEN), prop="C03", kind="post")
+            eng.oblige("C20:render-method-used=the-per-call-override(any-letter-case),else-the-image's-effective-method", s2,
+                       And(s2.ghost["tx_count"] == (rh if method == "lines" else 1), Eq(s2.ghost.get("size_req"), (width, height))), prop="C20", kind="post")
         return eng.obligations
     return u
 
@@ -422,3 +430,5 @@ def kitty_unit(method, mode):
 for _meth in ("lines", "whole"):
     for _mode in ("RGB", "RGBA"):
         kitty_unit(_meth, _mode)
+    for _ov in (_meth, _meth.upper(), _meth.capitalize()):
+        kitty_unit(_meth, "RGB", override=_ov)
